@@ -12,7 +12,7 @@
     property, written here independently of the model, to the implementation's
     own observations -- tags 2..9, or 11/12 inside a known-finding class. *)
 From Gnmi Require Import Base.Prelude FakeQ.GoRand FakeQ.FakeQModel.
-From Coq Require Export Floats.
+From Coq Require Export Floats Uint63.
 Open Scope Z_scope.
 
 Inductive oval :=
@@ -25,6 +25,10 @@ Inductive obs :=
 | ODel (id : nat) (ts : Z)                   (* client family: delete response *)
 | OSync (b : bool)                           (* client family: sync response *)
 | OEnd (e : ending).                         (* the run ended before the step bound *)
+
+(** tapes are written as primitive 63-bit integers in cases files (a raw
+    Int63 value fits exactly; elaborating them costs nothing) *)
+Definition tz (l : list Uint63.int) : tape := map Uint63.to_Z l.
 
 Record case := mkCase {
   c_client : bool;
